@@ -388,6 +388,7 @@ class World:
         self.open = set()
         self.max_open = 0
         self._buckets = {}
+        self.in_flight = {}     # token -> (tid, "data" | "event", answered tx index): what the peer still has on its way
         self.peer_events = []   # (time, error|eof|reset, tid): transport-killing events caused by the peer
         self.harness_errors = []   # exceptions raised by the scripted peer / responders themselves (see VLoop.shutdown)
         self.resolve = dict(DEFAULT_RESOLVE)   # host names / non-canonical spellings -> numeric address (getaddrinfo stand-in)
@@ -431,14 +432,23 @@ class World:
 
     def deliver_later(self, tr, delay: float, index: int, data: bytes):
         loop = tr._vloop
+        token = object()
+        self.in_flight[token] = (tr.tid, "data", index)
 
         def _do():
+            self.in_flight.pop(token, None)
             ok = tr.peer_deliver(data)
             self.deliveries.append((loop.vtime, tr.tid, index, data, ok, len(self.tx) - 1))
         self._at(loop, delay, _do)
 
     def call_later(self, tr, delay: float, fn, *args):
-        self._at(tr._vloop, delay, lambda: fn(*args))
+        token = object()
+        self.in_flight[token] = (tr.tid, "event", None)
+
+        def _do():
+            self.in_flight.pop(token, None)
+            fn(*args)
+        self._at(tr._vloop, delay, _do)
 
     def _at(self, loop, delay, fn):
         """Peer events scheduled for the same instant happen in the order they were scheduled (asyncio's timer heap
